@@ -412,8 +412,116 @@ func init() {
 		}
 		sort.Strings(mr)
 		x.defStrList("monitorReads", mr)
+
+		// ---- makeConfig: one result per service ---------------------------------------------------------------
+		// the goroutine started per service: what it does with channels, in order, and whether anything in it is
+		// conditional or leaves early ("send" = channel send, "recv" = channel receive); the collector: a loop
+		// that receives once per element of the very collection the goroutines were started from.
+		{
+			var gev []string
+			spawnedFrom, awaited := "", ""
+			ast.Inspect(root.Body, func(n ast.Node) bool {
+				switch v := n.(type) {
+				case *ast.RangeStmt:
+					if len(x.goStmts(v.Body)) > 0 {
+						spawnedFrom = x.src(v.X)
+					}
+				case *ast.ForStmt:
+					recv := false
+					ast.Inspect(v.Body, func(k ast.Node) bool {
+						if u, ok := k.(*ast.UnaryExpr); ok && u.Op == token.ARROW {
+							recv = true
+						}
+						return true
+					})
+					if recv && v.Cond != nil {
+						if b, ok := v.Cond.(*ast.BinaryExpr); ok && b.Op == token.LSS {
+							if c, ok := b.Y.(*ast.CallExpr); ok && x.src(c.Fun) == "len" && len(c.Args) == 1 {
+								awaited = x.src(c.Args[0])
+							}
+						}
+					}
+				case *ast.GoStmt:
+					fl, ok := v.Call.Fun.(*ast.FuncLit)
+					if !ok {
+						gev = append(gev, "go "+x.src(v.Call.Fun))
+						return false
+					}
+					ast.Inspect(fl.Body, func(k ast.Node) bool {
+						switch w := k.(type) {
+						case *ast.SendStmt:
+							gev = append(gev, "send")
+						case *ast.UnaryExpr:
+							if w.Op == token.ARROW {
+								gev = append(gev, "recv")
+							}
+						case *ast.IfStmt, *ast.SwitchStmt, *ast.SelectStmt, *ast.ForStmt, *ast.RangeStmt:
+							gev = append(gev, "branch")
+						case *ast.ReturnStmt, *ast.BranchStmt:
+							gev = append(gev, "exit")
+						case *ast.DeferStmt:
+							gev = append(gev, "defer")
+						}
+						return true
+					})
+					return false
+				}
+				return true
+			})
+			x.defStrList("makeConfigWorker", gev)
+			x.defBool("collectorAwaitsEverySpawned", spawnedFrom != "" && spawnedFrom == awaited)
+		}
+
+		// ---- the consumer: main.watchBackend ----------------------------------------------------------------
+		// the loop that hands the text to route.NewTable: in source order, the calls that carry the update
+		// (route.ParseAliases, registry.Default.Register, route.NewTable, route.SetTable) and every statement that
+		// can leave the iteration (continue / break / return / goto, conditional or not). What the conditions
+		// say is not pinned; what matters is WHERE an iteration can end before route.SetTable.
+		if wb := x.funcDecl(".", "", "watchBackend"); wb != nil {
+			var loop *ast.ForStmt
+			ast.Inspect(wb.Body, func(n ast.Node) bool {
+				if f, ok := n.(*ast.ForStmt); ok && len(x.calls(f.Body, "route.NewTable")) > 0 {
+					loop = f // innermost loop with the call
+				}
+				return true
+			})
+			if loop == nil {
+				x.fail("main.watchBackend: no loop that calls route.NewTable")
+			} else {
+				var ev []string
+				ast.Inspect(loop.Body, func(n ast.Node) bool {
+					switch v := n.(type) {
+					case *ast.FuncLit:
+						return false
+					case *ast.CallExpr:
+						switch callee := x.src(v.Fun); callee {
+						case "route.ParseAliases", "registry.Default.Register", "route.NewTable", "route.SetTable":
+							ev = append(ev, "call "+callee)
+						}
+					case *ast.BranchStmt:
+						ev = append(ev, "exit")
+					case *ast.ReturnStmt:
+						ev = append(ev, "exit")
+					}
+					return true
+				})
+				x.defStrList("watchLoopEvents", ev)
+			}
+		}
 		return nil
 	})
+}
+
+// goStmts returns the go statements below a node.
+func (x *X) goStmts(n ast.Node) []*ast.GoStmt {
+	var out []*ast.GoStmt
+	ast.Inspect(n, func(k ast.Node) bool {
+		if g, ok := k.(*ast.GoStmt); ok {
+			out = append(out, g)
+		}
+		return true
+	})
+	return out
 }
 
 // uniq sorts and removes duplicates.
